@@ -547,11 +547,24 @@ Section Plan.
     Ok r.
 End Plan.
 
-(* full generate_quantization_parameters incl. the post-processing check *)
-Definition plan_checked (matches : Z -> Z -> bool) (rules : state)
+(* full generate_quantization_parameters incl. the post-processing check.
+   [mk_cls all p] = equality class of the parameters denoted by term p among
+   the terms [all] of this plan: syntactic equality of terms (term_class) or a
+   table of VALUE-equality classes computed by the harness with Python's ==
+   (table_class), which is what the code compares. *)
+Definition table_class (table : list Z) (all : list pterm) (p : pterm) : Z :=
+  match find_index (pterm_eqb p) all with
+  | Some i => nth i table (-1)
+  | None => -1
+  end.
+
+Definition plan_checked_cls (mk_cls : list pterm -> pterm -> Z)
+           (matches : Z -> Z -> bool) (rules : state)
            (scope_id : Z -> list stok -> Z) (m : model)
            (scopes : list (list bool)) (stats : option (list name_t))
   : res (list tplan * list (name_t * vterm)) :=
   r <- plan matches rules (m_buffers m) scope_id m scopes stats ;;
-  check_buffer_sharing_with (m_buffers m) (term_class (terms_of (fst r))) m (fst r) ;;;
+  check_buffer_sharing_with (m_buffers m) (mk_cls (terms_of (fst r))) m (fst r) ;;;
   Ok r.
+
+Definition plan_checked := plan_checked_cls term_class.
